@@ -277,4 +277,98 @@ theorem mixu_mod (N : NumOps) (x y : ℤ) (hx0 : 0 ≤ x) (hy0' : 0 ≤ y) (hx :
   · have h1 : vmOp cfgGen N "modulo" "mod" (.u64 x) (.u64 y) = (divMethodU "mod" "%" x y).bind (fun r => Res.ok (Val.u64 r)) := rfl
     rw [h1, hm, bind_ok]
 
+/-! ## int/s64 ⊕ int/u64 and int/u64 ⊕ int/s64: the left operand's method decides the kind of the result; the other box is reinterpreted
+(`*(int64_t *) abst` / `*(uint64_t *) abst`), which is the identity on 0 ≤ v ≤ 2^53 -/
+
+theorem wrapS_small (y : ℤ) (h0 : 0 ≤ y) (hy : |y| ≤ 9007199254740992) : wrapS y = y := by
+  have := abs_le.1 hy
+  exact wrap_of_inRange .s64 y (hr y hy)
+theorem wrapU_small (y : ℤ) (h0 : 0 ≤ y) (hy : |y| ≤ 9007199254740992) : wrapU y = y := by
+  have := abs_le.1 hy
+  exact wrap_of_inRange .u64 y (by simp only [Kind.inRange, two64]; omega)
+
+/-- `+`: s64 ⊕ u64 is the s64 box of x ⊕ y, u64 ⊕ s64 the u64 box of y ⊕ x (the u64 value y ≥ 0; x ≥ 0 where it is read as a u64) -/
+theorem mixsu_add (N : NumOps) (x y : ℤ) (hx : |x| ≤ 9007199254740992) (hy : |y| ≤ 9007199254740992) (hyn : 0 ≤ y) :
+    (∀ hz : Kind.s64.inRange (x + y), vmOp cfgGen N "binop" "+" (.s64 x) (.u64 y) = .ok (.s64 (x + y))) ∧
+    (0 ≤ x → ∀ hz : Kind.u64.inRange (y + x), vmOp cfgGen N "binop" "+" (.u64 y) (.s64 x) = .ok (.u64 (y + x))) := by
+  refine ⟨fun hz => ?_, fun hxn hz => ?_⟩
+  · have hm : opMethod .s64 "+" x y = .ok (x + y) := (s64_op_exact_of_inRange x y).1 hz
+    have h1 : vmOp cfgGen N "binop" "+" (.s64 x) (.u64 y) = (opMethod .s64 "+" x (wrapS y)).bind (fun r => Res.ok (Val.s64 r)) := rfl
+    rw [h1, wrapS_small y hyn hy, hm, bind_ok]
+  · have hm : opMethod .u64 "+" y x = .ok (y + x) := (u64_op_exact_of_inRange y x).1 hz
+    have h1 : vmOp cfgGen N "binop" "+" (.u64 y) (.s64 x) = (opMethod .u64 "+" y (wrapU x)).bind (fun r => Res.ok (Val.u64 r)) := rfl
+    rw [h1, wrapU_small x hxn hx, hm, bind_ok]
+
+/-- `-`: s64 ⊕ u64 is the s64 box of x ⊕ y, u64 ⊕ s64 the u64 box of y ⊕ x (the u64 value y ≥ 0; x ≥ 0 where it is read as a u64) -/
+theorem mixsu_sub (N : NumOps) (x y : ℤ) (hx : |x| ≤ 9007199254740992) (hy : |y| ≤ 9007199254740992) (hyn : 0 ≤ y) :
+    (∀ hz : Kind.s64.inRange (x - y), vmOp cfgGen N "binop" "-" (.s64 x) (.u64 y) = .ok (.s64 (x - y))) ∧
+    (0 ≤ x → ∀ hz : Kind.u64.inRange (y - x), vmOp cfgGen N "binop" "-" (.u64 y) (.s64 x) = .ok (.u64 (y - x))) := by
+  refine ⟨fun hz => ?_, fun hxn hz => ?_⟩
+  · have hm : opMethod .s64 "-" x y = .ok (x - y) := (s64_op_exact_of_inRange x y).2.1 hz
+    have h1 : vmOp cfgGen N "binop" "-" (.s64 x) (.u64 y) = (opMethod .s64 "-" x (wrapS y)).bind (fun r => Res.ok (Val.s64 r)) := rfl
+    rw [h1, wrapS_small y hyn hy, hm, bind_ok]
+  · have hm : opMethod .u64 "-" y x = .ok (y - x) := (u64_op_exact_of_inRange y x).2.1 hz
+    have h1 : vmOp cfgGen N "binop" "-" (.u64 y) (.s64 x) = (opMethod .u64 "-" y (wrapU x)).bind (fun r => Res.ok (Val.u64 r)) := rfl
+    rw [h1, wrapU_small x hxn hx, hm, bind_ok]
+
+/-- `*`: s64 ⊕ u64 is the s64 box of x ⊕ y, u64 ⊕ s64 the u64 box of y ⊕ x (the u64 value y ≥ 0; x ≥ 0 where it is read as a u64) -/
+theorem mixsu_mul (N : NumOps) (x y : ℤ) (hx : |x| ≤ 9007199254740992) (hy : |y| ≤ 9007199254740992) (hyn : 0 ≤ y) :
+    (∀ hz : Kind.s64.inRange (x * y), vmOp cfgGen N "binop" "*" (.s64 x) (.u64 y) = .ok (.s64 (x * y))) ∧
+    (0 ≤ x → ∀ hz : Kind.u64.inRange (y * x), vmOp cfgGen N "binop" "*" (.u64 y) (.s64 x) = .ok (.u64 (y * x))) := by
+  refine ⟨fun hz => ?_, fun hxn hz => ?_⟩
+  · have hm : opMethod .s64 "*" x y = .ok (x * y) := (s64_op_exact_of_inRange x y).2.2 hz
+    have h1 : vmOp cfgGen N "binop" "*" (.s64 x) (.u64 y) = (opMethod .s64 "*" x (wrapS y)).bind (fun r => Res.ok (Val.s64 r)) := rfl
+    rw [h1, wrapS_small y hyn hy, hm, bind_ok]
+  · have hm : opMethod .u64 "*" y x = .ok (y * x) := (u64_op_exact_of_inRange y x).2.2 hz
+    have h1 : vmOp cfgGen N "binop" "*" (.u64 y) (.s64 x) = (opMethod .u64 "*" y (wrapU x)).bind (fun r => Res.ok (Val.u64 r)) := rfl
+    rw [h1, wrapU_small x hxn hx, hm, bind_ok]
+
+/-- `/`: s64 ⊕ u64 is the s64 box of x ⊕ y, u64 ⊕ s64 the u64 box of y ⊕ x (the u64 value y ≥ 0; x ≥ 0 where it is read as a u64) -/
+theorem mixsu_quot (N : NumOps) (x y : ℤ) (hx : |x| ≤ 9007199254740992) (hy : |y| ≤ 9007199254740992) (hyn : 0 ≤ y) :
+    (∀ hy0 : y ≠ 0, vmOp cfgGen N "binop" "/" (.s64 x) (.u64 y) = .ok (.s64 (Int.tdiv x y))) ∧
+    (0 ≤ x → ∀ hx0 : x ≠ 0, vmOp cfgGen N "binop" "/" (.u64 y) (.s64 x) = .ok (.u64 (y / x))) := by
+  refine ⟨fun hy0 => ?_, fun hxn hx0 => ?_⟩
+  · have hm : divMethodS cfgGen.guardDiv "div" "/" x y = .ok (Int.tdiv x y) := ((trunc_div_rem_correct x y hy0).1 (hmin x y hx)).1
+    have h1 : vmOp cfgGen N "binop" "/" (.s64 x) (.u64 y) = (divMethodS cfgGen.guardDiv "div" "/" x (wrapS y)).bind (fun r => Res.ok (Val.s64 r)) := rfl
+    rw [h1, wrapS_small y hyn hy, hm, bind_ok]
+  · have hm : divMethodU "div" "/" y x = .ok (y / x) := (trunc_div_rem_correct y x hx0).2.2.1
+    have h1 : vmOp cfgGen N "binop" "/" (.u64 y) (.s64 x) = (divMethodU "div" "/" y (wrapU x)).bind (fun r => Res.ok (Val.u64 r)) := rfl
+    rw [h1, wrapU_small x hxn hx, hm, bind_ok]
+
+/-- `%`: s64 ⊕ u64 is the s64 box of x ⊕ y, u64 ⊕ s64 the u64 box of y ⊕ x (the u64 value y ≥ 0; x ≥ 0 where it is read as a u64) -/
+theorem mixsu_rem (N : NumOps) (x y : ℤ) (hx : |x| ≤ 9007199254740992) (hy : |y| ≤ 9007199254740992) (hyn : 0 ≤ y) :
+    (∀ hy0 : y ≠ 0, vmOp cfgGen N "remainder" "%" (.s64 x) (.u64 y) = .ok (.s64 (Int.tmod x y))) ∧
+    (0 ≤ x → ∀ hx0 : x ≠ 0, vmOp cfgGen N "remainder" "%" (.u64 y) (.s64 x) = .ok (.u64 (y % x))) := by
+  refine ⟨fun hy0 => ?_, fun hxn hx0 => ?_⟩
+  · have hm : divMethodS cfgGen.guardDiv "rem" "%" x y = .ok (Int.tmod x y) := ((trunc_div_rem_correct x y hy0).1 (hmin x y hx)).2
+    have h1 : vmOp cfgGen N "remainder" "%" (.s64 x) (.u64 y) = (divMethodS cfgGen.guardDiv "rem" "%" x (wrapS y)).bind (fun r => Res.ok (Val.s64 r)) := rfl
+    rw [h1, wrapS_small y hyn hy, hm, bind_ok]
+  · have hm : divMethodU "rem" "%" y x = .ok (y % x) := (trunc_div_rem_correct y x hx0).2.2.2.1
+    have h1 : vmOp cfgGen N "remainder" "%" (.u64 y) (.s64 x) = (divMethodU "rem" "%" y (wrapU x)).bind (fun r => Res.ok (Val.u64 r)) := rfl
+    rw [h1, wrapU_small x hxn hx, hm, bind_ok]
+
+/-- `div`: s64 ⊕ u64 is the s64 box of x ⊕ y, u64 ⊕ s64 the u64 box of y ⊕ x (the u64 value y ≥ 0; x ≥ 0 where it is read as a u64) -/
+theorem mixsu_div (N : NumOps) (x y : ℤ) (hx : |x| ≤ 9007199254740992) (hy : |y| ≤ 9007199254740992) (hyn : 0 ≤ y) :
+    (∀ hy0 : y ≠ 0, vmOp cfgGen N "divfloor" "div" (.s64 x) (.u64 y) = .ok (.s64 (Int.fdiv x y))) ∧
+    (0 ≤ x → ∀ hx0 : x ≠ 0, vmOp cfgGen N "divfloor" "div" (.u64 y) (.s64 x) = .ok (.u64 (y / x))) := by
+  refine ⟨fun hy0 => ?_, fun hxn hx0 => ?_⟩
+  · have hm : divfMethod cfgGen.guardDivf x y = .ok (Int.fdiv x y) := divf_eq_floor_div _ x y (hr x hx) hy0 (hmin x y hx)
+    have h1 : vmOp cfgGen N "divfloor" "div" (.s64 x) (.u64 y) = (divfMethod cfgGen.guardDivf x (wrapS y)).bind (fun r => Res.ok (Val.s64 r)) := rfl
+    rw [h1, wrapS_small y hyn hy, hm, bind_ok]
+  · have hm : divMethodU "div" "/" y x = .ok (y / x) := (trunc_div_rem_correct y x hx0).2.2.1
+    have h1 : vmOp cfgGen N "divfloor" "div" (.u64 y) (.s64 x) = (divMethodU "div" "/" y (wrapU x)).bind (fun r => Res.ok (Val.u64 r)) := rfl
+    rw [h1, wrapU_small x hxn hx, hm, bind_ok]
+
+/-- `mod`: s64 ⊕ u64 is the s64 box of x ⊕ y, u64 ⊕ s64 the u64 box of y ⊕ x (the u64 value y ≥ 0; x ≥ 0 where it is read as a u64) -/
+theorem mixsu_mod (N : NumOps) (x y : ℤ) (hx : |x| ≤ 9007199254740992) (hy : |y| ≤ 9007199254740992) (hyn : 0 ≤ y) :
+    (∀ hy0 : y ≠ 0, vmOp cfgGen N "modulo" "mod" (.s64 x) (.u64 y) = .ok (.s64 (Int.fmod x y))) ∧
+    (0 ≤ x → ∀ hx0 : x ≠ 0, vmOp cfgGen N "modulo" "mod" (.u64 y) (.s64 x) = .ok (.u64 (y % x))) := by
+  refine ⟨fun hy0 => ?_, fun hxn hx0 => ?_⟩
+  · have hm : modMethod cfgGen.guardMod x y = .ok (Int.fmod x y) := mod_eq_floor_mod _ x y (hr x hx) (hr y hy) hy0 (Or.inr (hmin x y hx))
+    have h1 : vmOp cfgGen N "modulo" "mod" (.s64 x) (.u64 y) = (modMethod cfgGen.guardMod x (wrapS y)).bind (fun r => Res.ok (Val.s64 r)) := rfl
+    rw [h1, wrapS_small y hyn hy, hm, bind_ok]
+  · have hm : divMethodU "mod" "%" y x = .ok (y % x) := (trunc_div_rem_correct y x hx0).2.2.2.2
+    have h1 : vmOp cfgGen N "modulo" "mod" (.u64 y) (.s64 x) = (divMethodU "mod" "%" y (wrapU x)).bind (fun r => Res.ok (Val.u64 r)) := rfl
+    rw [h1, wrapU_small x hxn hx, hm, bind_ok]
+
 end JanetModel.Int64
